@@ -393,6 +393,66 @@ fn large_law_jobs(seed: u64) -> Vec<Job> {
     jobs
 }
 
+/// Populations beyond 16-bit (and, in thorough runs, 20-bit) sizes: the lowest and the highest position
+/// among the k entrants and the winner's rank are judged in 16 buckets each against
+/// P(all k entrants among t given individuals) = C(t,k)/C(n,k).
+fn huge_law_jobs(seed: u64, thorough: bool) -> Vec<Job> {
+    let mut configs: Vec<(usize, usize)> = vec![(65_537, 2), (100_000, 2), (100_000, 3), (300_000, 5)];
+    if thorough {
+        configs.extend([(1_000_003, 2), (2_000_000, 7), (70_000, 2)]);
+    }
+    let mut jobs = vec![];
+    for (ci, (n, k)) in configs.into_iter().enumerate() {
+        let name = format!("Tournament({k}) over {n} distinct keys (position buckets)");
+        jobs.push(Job {
+            name: name.clone(),
+            run: Box::new(move |trials, jseed| {
+                // rank of the individual at each position: a seed-dependent permutation
+                let mut ranks: Vec<u32> = (0..n as u32).collect();
+                for i in (1..n).rev() {
+                    let j = (splitmix(seed ^ 0x4A6E ^ ((ci as u64) << 40) ^ i as u64) % (i as u64 + 1)) as usize;
+                    ranks.swap(i, j);
+                }
+                let keys: Vec<i64> = ranks.iter().map(|r| i64::from(*r)).collect();
+                let pop = pop_of(&keys);
+                let t = Tournament::new(NonZeroUsize::new(k).unwrap_or(NonZeroUsize::MIN));
+                let mut rng = StdRng::seed_from_u64(jseed);
+                let trials = (trials / 4).max(50_000);
+                let bucket = |x: usize| x * 16 / n;
+                let (mut lo, mut hi, mut win) = ([0u64; 16], [0u64; 16], [0u64; 16]);
+                let mut exact = 0u64;
+                for _ in 0..trials {
+                    let (id, s) = draw(&t, &pop, k, &mut rng)?;
+                    win[bucket(ranks[id as usize] as usize)] += 1;
+                    if s.len() == k {
+                        exact += 1;
+                        lo[bucket(s[0] as usize)] += 1;
+                        hi[bucket(s[k - 1] as usize)] += 1;
+                    }
+                }
+                // C(t,k)/C(n,k)
+                let all_within = |t: usize| -> f64 { (0..k).map(|j| (t as f64 - j as f64).max(0.0) / (n - j) as f64).product() };
+                let edge = |b: usize| (b * n).div_ceil(16); // first position of bucket b
+                let mut stats = vec![];
+                for b in 0..16 {
+                    let (a, z) = (edge(b), edge(b + 1).min(n));
+                    // highest position (or the winner's rank) in [a, z): all k within the first z, not all within the first a
+                    let p_top = all_within(z) - all_within(a);
+                    // lowest position in [a, z): all k at positions >= a, not all at positions >= z
+                    let p_low = all_within(n - a) - all_within(n - z);
+                    stats.push(Stat::new("Tournament/winner-law", format!("{name}: winner's rank in bucket {b}/16"), win[b], trials, p_top.clamp(0.0, 1.0)));
+                    if exact == trials {
+                        stats.push(Stat::new("Tournament/subset-not-uniform", format!("{name}: highest entrant position in bucket {b}/16"), hi[b], trials, p_top.clamp(0.0, 1.0)));
+                        stats.push(Stat::new("Tournament/subset-not-uniform", format!("{name}: lowest entrant position in bucket {b}/16"), lo[b], trials, p_low.clamp(0.0, 1.0)));
+                    }
+                }
+                Ok(stats)
+            }),
+        });
+    }
+    jobs
+}
+
 /// The named constructors are the sizes they say.
 fn constructor_check(ctx: &mut Ctx) {
     let cases: Vec<(&str, Tournament, usize)> = vec![
@@ -428,12 +488,13 @@ fn constructor_check(ctx: &mut Ctx) {
 }
 
 pub fn run(ctx: &mut Ctx) {
-    ctx.rule = "invariants: generated populations (0..200 individuals ordered by a key, with ties), all tournament sizes incl. n and n+1, generated random stream; the sampled subset of each tournament is recovered from the ids the individuals' Ord::cmp is asked to compare. laws: for every n <= 7 and k <= n (distinct keys, and a tie-laden variant) seeded draws compared with the uniform law 1/C(n,k) over k-subsets and the winner law obtained by enumerating all k-subsets; for 14 larger configurations (n up to 300, k up to 40) the inclusion rate k/n of every individual, the co-inclusion rate of neighbouring and opposite pairs and the pooled winner-rank law C(r,k-1)/C(n,k); the named constructors binary() / of_size::<N>() are the sizes they say. non-trivial = n >= 3 with >= 2 distinct keys and 1 < k < n (invariants); each (statistic, configuration) with 0 < p < 1 (laws)".into();
+    ctx.rule = "invariants: generated populations (0..200 individuals ordered by a key, with ties), all tournament sizes incl. n and n+1, generated random stream; the sampled subset of each tournament is recovered from the ids the individuals' Ord::cmp is asked to compare. laws: for every n <= 7 and k <= n (distinct keys, and a tie-laden variant) seeded draws compared with the uniform law 1/C(n,k) over k-subsets and the winner law obtained by enumerating all k-subsets; for 14 larger configurations (n up to 300, k up to 40) the inclusion rate k/n of every individual, the co-inclusion rate of neighbouring and opposite pairs and the pooled winner-rank law C(r,k-1)/C(n,k); for populations of 65537..300000 (thorough: 2 million) individuals the lowest / highest entrant position and the winner's rank in 16 buckets; the named constructors binary() / of_size::<N>() are the sizes they say. non-trivial = n >= 3 with >= 2 distinct keys and 1 < k < n (invariants); each (statistic, configuration) with 0 < p < 1 (laws)".into();
     ctx.assumptions.push("on ties any maximal individual is accepted; if an implementation compares more than k individuals the subset law is skipped and only the winner law is used".into());
     let (n_cases, trials) = ctx.tier.pick((400_000u32, 1_000_000u64), (6_000_000, 10_000_000));
     ctx.run_prop("invariants", n_cases, || strategy(200), oracle);
     run_jobs(ctx, "tournament_laws", law_jobs(ctx.seed), trials);
     run_jobs(ctx, "tournament_laws_large", large_law_jobs(ctx.seed), trials);
+    run_jobs(ctx, "tournament_laws_huge", huge_law_jobs(ctx.seed, ctx.tier == crate::Tier::Thorough), trials);
     constructor_check(ctx);
 }
 
@@ -444,6 +505,9 @@ pub fn replay(ctx: &mut Ctx, sub: &str, case: &Value) {
     } else if sub == "tournament_laws_large" {
         let trials = ctx.tier.pick(1_000_000u64, 10_000_000);
         run_jobs(ctx, "tournament_laws_large", large_law_jobs(ctx.seed), trials);
+    } else if sub == "tournament_laws_huge" {
+        let trials = ctx.tier.pick(1_000_000u64, 10_000_000);
+        run_jobs(ctx, "tournament_laws_huge", huge_law_jobs(ctx.seed, ctx.tier == crate::Tier::Thorough), trials);
     } else if sub == "named_constructors" {
         constructor_check(ctx);
     } else {
